@@ -289,6 +289,44 @@ impl Ord for Rec {
     }
 }
 
+fn token_slices(c: &TextCase) -> Result<(), String> {
+    let toks = |b: &[u8]| -> Vec<Vec<u8>> {
+        let v: Vec<&[u8]> = match c.tok % 5 {
+            0 => b.tokenize_lines(),
+            1 => b.tokenize_words(),
+            2 => b.tokenize_chars(),
+            3 => b.tokenize_unicode_words(),
+            _ => b.tokenize_graphemes(),
+        };
+        v.into_iter().map(|t| t.to_vec()).collect()
+    };
+    let (old, new) = (toks(&c.old.0), toks(&c.new.0));
+    if old.len() + new.len() > 1500 {
+        return Ok(());
+    }
+    let out = utils::diff_slices(alg_of(c.alg), &old[..], &new[..]);
+    let (mut oi, mut ni) = (0usize, 0usize);
+    for (tag, s) in &out {
+        if s.is_empty() {
+            return Err("utils::diff_slices over owned tokens returned an empty slice".into());
+        }
+        let (base, off) = if *tag == ChangeTag::Insert { (&new[..], ni) } else { (&old[..], oi) };
+        if off + s.len() > base.len() || s.as_ptr() as usize != base[off..].as_ptr() as usize {
+            return Err(format!("utils::diff_slices over {} / {} owned tokens: a {:?} slice of {} items is not the sub-slice of the {} input at item {}", old.len(), new.len(), tag, s.len(), if *tag == ChangeTag::Insert { "new" } else { "old" }, off));
+        }
+        if *tag != ChangeTag::Insert {
+            oi += s.len();
+        }
+        if *tag != ChangeTag::Delete {
+            ni += s.len();
+        }
+    }
+    if oi != old.len() || ni != new.len() {
+        return Err(format!("utils::diff_slices over {} / {} owned tokens covers {} / {} items", old.len(), new.len(), oi, ni));
+    }
+    Ok(())
+}
+
 fn helper_slices(c: &TextCase) -> Result<(), String> {
     // utils::diff_slices over the raw bytes as items: every returned slice is a sub-slice of the
     // proper input at the position the walk has reached (pointer arithmetic)
@@ -436,6 +474,14 @@ pub fn check_case(c: &TextCase, obs: &mut Obs) -> Verdict {
         Ok(Err(m)) => return Verdict::Fail(format!("{}: {}", what, m)),
         Err(p) => return Verdict::Fail(format!("{}: remapper: {}", what, p)),
     }
+    // utils::diff_slices over the TOKENS of the two texts as owned Strings / Vec<u8> (items wider
+    // than a machine word; more than 100 of them for the larger texts, the two sides of different
+    // length): every slice handed back is the sub-slice of the proper input at the walk position
+    match guard(|| token_slices(c)) {
+        Ok(Ok(())) => {}
+        Ok(Err(m)) => return Verdict::Fail(format!("{}: {}", what, m)),
+        Err(p) => return Verdict::Fail(format!("{}: utils::diff_slices over owned tokens: {}", what, p)),
+    }
     match guard(|| helpers(c)) {
         Ok(Ok(())) => {}
         Ok(Err(m)) => return Verdict::Fail(format!("{}: {}", what, m)),
@@ -478,7 +524,7 @@ impl Prop for C17 {
     type Case = TextCase;
     const ID: &'static str = "C17";
     fn rule() -> String {
-        "1 case in 6 builds its TextDiff under a deadline that has passed or runs out at one of the first probes (virtual clock); cases = (old text, new text, tokenizer, algorithm, str | [u8]) from the shared text mixture (see C04) plus an enumeration of 6x6 corner texts x 5 tokenizers x 3 algorithms x {str,[u8]} (covers (\"\",\"\") for every algorithm). Oracle: TextDiffRemapper::{from_text_diff,new}::iter_slices(op) has the tags of DiffOp::iter_slices over the token vectors, each slice equals the concatenation of the op's tokens and is the substring of the original at the right byte offset (pointer arithmetic); slice_old/slice_new agree; a remapper given equal COPIES of the two texts (other addresses) returns the same slices, lying in the copies; non-Insert slices concatenate to old, non-Delete to new; utils::diff_{lines,words,chars,unicode_words,graphemes,slices} reconstruct both inputs, return no empty slice, do not panic and equal the text diff with the same algorithm expanded through TextDiffRemapper (diff_lines: one change per line, as documented); every utils::diff_slices slice is the sub-slice of the proper input at the walk position (pointer arithmetic), also over record items that compare by key only (payloads tell old from new items). 1 random case in 8 uses a CALLER-DEFINED tokenization (text cut at pseudo-random char boundaries, occasional empty tokens) through TextDiffConfig::diff_slices + both remapper constructors (the no-empty-slice clause is not applied there). Non-trivial = >= 2 ops and a multi-token slice; distinct = distinct serialized case.".into()
+        "1 case in 6 builds its TextDiff under a deadline that has passed or runs out at one of the first probes (virtual clock); cases = (old text, new text, tokenizer, algorithm, str | [u8]) from the shared text mixture (see C04) plus an enumeration of 6x6 corner texts x 5 tokenizers x 3 algorithms x {str,[u8]} (covers (\"\",\"\") for every algorithm). Oracle: TextDiffRemapper::{from_text_diff,new}::iter_slices(op) has the tags of DiffOp::iter_slices over the token vectors, each slice equals the concatenation of the op's tokens and is the substring of the original at the right byte offset (pointer arithmetic); slice_old/slice_new agree; a remapper given equal COPIES of the two texts (other addresses) returns the same slices, lying in the copies; non-Insert slices concatenate to old, non-Delete to new; utils::diff_{lines,words,chars,unicode_words,graphemes,slices} reconstruct both inputs, return no empty slice, do not panic and equal the text diff with the same algorithm expanded through TextDiffRemapper (diff_lines: one change per line, as documented); every utils::diff_slices slice is the sub-slice of the proper input at the walk position (pointer arithmetic; over the raw bytes of small texts and over the owned tokens of every text, i.e. also more than 100 wide items), also over record items that compare by key only (payloads tell old from new items). 1 random case in 8 uses a CALLER-DEFINED tokenization (text cut at pseudo-random char boundaries, occasional empty tokens) through TextDiffConfig::diff_slices + both remapper constructors (the no-empty-slice clause is not applied there). Non-trivial = >= 2 ops and a multi-token slice; distinct = distinct serialized case.".into()
     }
     fn assumptions() -> Vec<String> {
         vec!["the original strings passed to the remapper are the ones the diff was built from".into()]
